@@ -25,6 +25,9 @@ dyn_tag = st.one_of(
     st.just(['name', 'source']),
     st.sampled_from([r'REF:(\d+)', r'PROJ:(\w+)', r'#(\d+)', r'^(\S+)']).map(lambda p: ['call', 'extract', [['str', p]]]),
     st.just(['call', 'extract', [['field', 'memo'], ['str', r'PROJ:(\w+)']]]),
+    # counted quantifiers: braces INSIDE the {expression}
+    st.sampled_from([r'REF:(\d{2,})', r'(\d{4})', r'#(\d{1,6})', r'([A-Z]{3,})']).map(lambda p: ['call', 'extract', [['str', p]]]),
+    st.just(['call', 'extract', [['field', 'memo'], ['str', r'REF:(\d{1,3})']]]),
     st.just(['listcomp', ['attr', 'r', 'item'], 'r', ['name', 'orders'], None]),
     st.just(['listcomp', ['attr', 'r', 'item'], 'r', ['name', 'orders'], ['cmp', ['attr', 'r', 'amount'], [['==', ['txn', 'amount']]]]]),
     st.just(['var', 'label']),
